@@ -139,18 +139,8 @@ def check(ctx, config, rule):
         # the move may be skipped only when there is no tail (old_len <= idx) or no hole (del <= 0)
         bad = []
         if cp and sl:
-            g = I.cfg(b)
-            cb = cp[0].top_block()
-            for e in ev:
-                if e.kind != 'branch':
-                    continue
-                tgt = e.extra['target']
-                # an edge that leaves the path to the copy but still reaches set_len
-                reach = g.reach([tgt])
-                if cb in reach or sl[0].top_block() not in reach:
-                    continue
-                if not g.can_reach(e.top_block(), cb):
-                    continue
+            # an edge that leaves the path to the copy but still reaches set_len
+            for e in arena.bypass_edges(I, r, ev, cp[0], sl[0]):
                 fs = [tuple(fold(x) if isinstance(x, tuple) else x for x in f) for f in e.extra['added']]
                 okf = any(f in (('le', OLD, IDX), ('eq', OLD, IDX), ('eq', IDX, OLD), ('le', DEL, C(0)), ('eq', DEL, C(0)), ('eq', C(0), DEL)) for f in fs)
                 if not okf:
@@ -164,6 +154,10 @@ def check(ctx, config, rule):
         I, r = arena.run_fn(ctx, b['id'], config)
         ev = own(r)
         fe = [e for e in ev if e.kind == 'call' and (e.callee or '').endswith('for_each')]
+        if not fe:
+            # `while let Some(item) = drain.next() { drop(item) }`: the same exhaustion, spelled as a loop over next()
+            fe = [e for e in ev if e.kind == 'call' and 'DrainFilter<' in (e.callee or '') and (e.callee or '').endswith('Iterator>::next') and e.fn == b['id']
+                  and any(e.block in blks for blks in I.cfg(b).loops().values())]
         okf = len(fe) == 1 and any(tuple(fold(x) if isinstance(x, tuple) else x for x in f) in (('eq', FLAG, C(0)), ('eq', C(0), FLAG), ('nottrue', FLAG)) for f in fe[0].state.facts)
         clause('drop', 'remaining elements are consumed only if the predicate has not panicked (!panic_flag)', okf, '', b.get('span'))
         gd = [e for e in ev if e.kind == 'drop' and 'BackshiftOnDrop' in (e.extra.get('ty') or '')]
